@@ -198,6 +198,17 @@ def continuation_dfa(alphabet):
     return R.DFA.from_function(alphabet, "line", step, lambda q: q in ("line", "cr"))
 
 
+def from_ical_shape(from_node):
+    """Contentlines.from_ical must be exactly: to_unicode; unfold by uFOLD; split on NEWLINE dropping empty lines; append ''"""
+    body = source.strip_docstring(from_node.body)
+    want_try = ["unfolded = uFOLD.sub('', st)", "lines = cls((Contentline(line) for line in NEWLINE.split(unfolded) if line))",
+                "lines.append('')", "return lines"]
+    ok = len(body) == 2 and ast.unparse(body[0]) == "st = to_unicode(st)" and isinstance(body[1], ast.Try) \
+        and [ast.unparse(x) for x in body[1].body] == want_try and not body[1].orelse and not body[1].finalbody
+    if not ok:
+        raise extract.Outside("Contentlines.from_ical is not: to_unicode; uFOLD.sub; NEWLINE.split dropping empty lines; append ''")
+
+
 def lines_transducers(fold_out):
     """Contentlines.to_ical / from_ical on marker-encoded lists of lines (alphabet AOUT + marker)"""
     mod = source.module("parser")
@@ -215,10 +226,7 @@ def lines_transducers(fold_out):
         raise extract.Outside("Contentline.to_ical is not foldline(self).encode(...)")
     # per line: fold; join with CRLF; trailing CRLF  (empty lines are skipped by `if line`: domain has none)
     to = F.concat_const("", F.compose(F.segmentwise(fold_out, M, A2), F.relabel({M: "\r\n"}, A2)), "\r\n")
-    src = ast.unparse(from_node)
-    needed = ["uFOLD.sub('', st)", "NEWLINE.split(unfolded) if line", "lines.append('')"]
-    if not all(x in src for x in needed):
-        raise extract.Outside("Contentlines.from_ical is not unfold; split on NEWLINE; drop empty; append ''")
+    from_ical_shape(from_node)
     unfold = F.regex_sub_fst(regex_of("uFOLD"), "", A2)
     split = F.regex_split_fst(regex_of("NEWLINE"), M, A2)
     # drop empty segments, then append the empty string: on the marker encoding "x|y|" (every kept line followed by a marker)
